@@ -398,6 +398,7 @@ class Ctx:
         self.samples = []
         self.notes = []
         self.all_requests = []
+        self._again = []
         self.distinct = set()
         self.evaluations = 0
         self.findings = load_known_findings(pid)
@@ -425,8 +426,11 @@ class Ctx:
             return []
         mvals = self.model.run(requests)
         bad = []
-        for req, mv in zip(requests, mvals):
+        step_again = max(1, len(requests) // 60)
+        for k, (req, mv) in enumerate(zip(requests, mvals)):
             iv = impl(*req)
+            if k % step_again == 0 and k // step_again < 60:
+                self._again.append((name, req, impl, norm, repr(norm(iv) if norm else iv)))
             if norm:
                 iv, mv = norm(iv), norm(mv)
             st['cases'] += 1
@@ -445,7 +449,28 @@ class Ctx:
         if keep_for_xcheck:
             step = max(1, len(requests) // 40)
             self.all_requests.extend(requests[::step][:40])
+        # remember a sample of what the implementation answered: asked again at the end of the run, in another order,
+        # the answers must be the same (a result that depends on earlier calls - a cache, a shared mutable default -
+        # is not a function of its input)
         return bad
+
+    def ask_again(self):
+        """re-evaluate the remembered requests in reverse order; returns the first that answers differently"""
+        st = self.stream('repeat:same-input-same-answer')
+        for name, req, impl, norm, first in reversed(self._again):
+            st['cases'] += 1
+            try:
+                iv = impl(*req)
+                got = repr(norm(iv) if norm else iv)
+            except Exception:  # noqa
+                # library exceptions are values (Exn) inside impl; an exception here comes from an adapter that
+                # replays precomputed answers and cannot be asked twice
+                st['not_repeatable'] = st.get('not_repeatable', 0) + 1
+                continue
+            if got != first:
+                st['disagreements'] += 1
+                return name, req, first, got
+        return None
 
     # ---- executable statement of the property on the implementation
     def prop(self, name, inputs, pred):
